@@ -150,10 +150,10 @@ func planC09life(c *Ctx, run int64) *Plan {
 		mk(op)
 	}
 	signer := int64(r.IntN(3))
-	mk(Op{K: "sign", I: signer})
+	mk(Op{K: "sign", I: signer, S3: Pick(r, []string{"", "", "", epCLI, epBulk, epHTTPBulk, epCobra})})
 	n := r.IntN(8)
 	for i := 0; i < n; i++ {
-		switch v := r.IntN(20); {
+		switch v := r.IntN(23); {
 		case v < 9:
 			mk(genHdr())
 		case v < 12:
@@ -166,6 +166,9 @@ func planC09life(c *Ctx, run int64) *Plan {
 			mk(Op{K: "unsign"})
 			mk(Op{K: "calc"})
 			mk(Op{K: "sign", I: signer})
+		case v < 20:
+			// the signer signs again through an entry point, whatever happened since
+			mk(Op{K: "resign-ep", S3: Pick(r, opEPs)})
 		default:
 			mk(Op{K: "present"})
 		}
@@ -203,7 +206,30 @@ func execC09(x *X) {
 		hist = append(hist, k)
 		note := ""
 		switch op.K {
-		case "sign":
+		case "sign", "resign-ep":
+			if op.K == "resign-ep" && len(s.m.sigs) != 1 {
+				note = "noop"
+				break
+			}
+			if op.S3 != "" {
+				// signing requested through an entry point: parse, calculate, sign
+				key := int(op.I)
+				if op.K == "resign-ep" {
+					key = s.m.sigs[0].key
+				}
+				got := signEntryOracle(x, op.S3, Marshal(s.env), key, chunk, strings.Join(hist, " → "))
+				if got == nil {
+					note = "refused"
+					break
+				}
+				s.env = got
+				s.markCalculated()
+				s.m.sigs = append(s.m.sigs, sigRec{key: key, snap: snapHeader(got.Head), real: true})
+				if op.K == "sign" {
+					modifiedAfterSign, restartedAfterSign = false, false
+				}
+				break
+			}
 			snap := snapHeader(s.env.Head)
 			if err := s.env.Sign(PrivKey(int(op.I))); err != nil {
 				note = "sign-error:" + errKey(err)
